@@ -1,14 +1,601 @@
 import Astria.Ledger.Model
 import Driver.Common
-/- Area `ledger` (stub): replays the trace through the model. -/
+/- Area `ledger`: replays the sequencer-ledger trace through `Astria.Ledger` (correspondence on
+   the full state dump after every op) and evaluates the specs of C01 C02 C03 C04 C14 C18 on the
+   states the implementation reported. -/
 namespace Driver.LedgerArea
+open Astria.Ledger
+
+/-! ### sorting / printing (must equal harness/sequencer/ledger.rs `dump`) -/
+
+def insertSorted (x : String) : List String → List String
+  | [] => [x]
+  | y :: ys => if x ≤ y then x :: y :: ys else y :: insertSorted x ys
+
+def sortStrings (l : List String) : List String := l.foldl (fun acc x => insertSorted x acc) []
+
+def joinOrDash (l : List String) : String := if l.isEmpty then "-" else ",".intercalate l
+
+def kindName : Kind → String
+  | .transfer => "transfer" | .rollup => "rollup" | .ics20 => "ics20" | .initBridge => "initbridge"
+  | .lock => "lock" | .unlock => "unlock" | .bridgeTransfer => "btransfer" | .bridgeSudo => "bsudo"
+
+def parseKind : String → Option Kind
+  | "transfer" => some .transfer | "rollup" => some .rollup | "ics20" => some .ics20
+  | "initbridge" => some .initBridge | "lock" => some .lock | "unlock" => some .unlock
+  | "btransfer" => some .bridgeTransfer | "bsudo" => some .bridgeSudo | _ => none
+
+def depsDump (deps : List Deposit) : String :=
+  -- index within the rollup's list
+  let rec go (seen : List (Nat × Nat)) : List Deposit → List String
+    | [] => []
+    | d :: rest =>
+      let i := match seen.find? (·.1 = d.rollup) with | some (_, n) => n | none => 0
+      let seen' := (d.rollup, i + 1) :: seen.filter (·.1 ≠ d.rollup)
+      s!"{d.rollup}:{i}:{d.bridge}:{d.asset}:{d.amount}:{d.destLen}:{d.index}" :: go seen' rest
+  joinOrDash (sortStrings (go [] deps))
+
+def dump (s : State) : String :=
+  let bal := sortStrings ((s.bal.filter (·.2 ≠ 0)).map fun ((x, a), v) => s!"{x}:{a}:{v}")
+  let nonce := sortStrings ((s.nonce.filter (·.2 ≠ 0)).map fun (x, v) => s!"{x}:{v}")
+  let esc := sortStrings ((s.esc.filter (·.2 ≠ 0)).map fun ((c, a), v) => s!"{c}:{a}:{v}")
+  let bridges := sortStrings (s.bridges.map fun (n, b) =>
+    s!"{n}:{b.rollup}:{b.asset}:{b.sudo}:{b.withdrawer}:{if b.disabled then 1 else 0}")
+  let wd := sortStrings (s.wd.map fun ((b, id), blk) => s!"{b}:{id}:{blk}")
+  let fees := sortStrings (s.fees.map fun (k, c) => s!"{kindName k}:{c.base}:{c.mult}")
+  let vals := sortStrings (s.vals.map fun (k, p) => s!"{k}:{p}")
+  let vupd := sortStrings (s.valUpdates.map fun (k, p) => s!"{k}:{p}")
+  let bfees := sortStrings ((s.blockFees).map fun (a, v) => s!"{a}:{v}")
+  let cnt := if s.postAspen then toString s.valCount else "pre"
+  s!"bal={joinOrDash bal} nonce={joinOrDash nonce} esc={joinOrDash esc} bridges={joinOrDash bridges} wd={joinOrDash wd} sudo={s.sudo} ibcsudo={s.ibcSudo} relayers={joinOrDash (sortStrings s.relayers)} fees={joinOrDash fees} feeassets={joinOrDash (sortStrings s.feeAssets)} vals={joinOrDash vals} cnt={cnt} vupd={joinOrDash vupd} bfees={joinOrDash bfees} deps={depsDump s.deposits}"
+
+def evName : Ev → String
+  | .fee a n pos => s!"fee:{a}:{n}:{pos}"
+  | .dep n => s!"dep:{n}"
+
+def eventsStr (evs : List Ev) : String := joinOrDash (evs.map evName)
+
+/-! ### genesis (must equal `World::new` / `seed_state`) -/
+
+def big : Nat := 1000000000000000000000
+def seeded : Nat := 5000000000000
+def UTIA := "transfer/channel-0/utia"
+def UOSMO := "transfer/channel-1/uosmo"
+
+def genesis (legacy : Bool) : State :=
+  let accounts := ["a0", "a1", "a2", "a3", "a4", "b0", "b1", "s", "i"]
+  let bal : List ((String × String) × Nat) :=
+    accounts.map (fun x => ((x, "nria"), big)) ++
+    (["a0", "a1", "a2", "a3"].flatMap fun x => [UTIA, "xtok", UOSMO].map fun a => ((x, a), seeded)) ++
+    [(("r1", "xtok"), U128_MAX - 1000)]
+  { postAspen := !legacy, postBlackburn := !legacy,
+    bal := bal, sudo := "s", ibcSudo := "i", relayers := ["i"],
+    fees := [(.rollup, ⟨1, 1001⟩), (.transfer, ⟨2, 1002⟩), (.ics20, ⟨3, 1003⟩), (.initBridge, ⟨4, 1004⟩),
+             (.lock, ⟨5, 1005⟩), (.unlock, ⟨6, 1006⟩), (.bridgeTransfer, ⟨7, 1007⟩), (.bridgeSudo, ⟨8, 1008⟩)],
+    feeAssets := ["nria", UTIA], knownAssets := ["nria", UTIA, UOSMO],
+    vals := if legacy then [("va", 10), ("vb", 10)] else [("va", 10), ("vb", 10), ("vc", 10)],
+    valCount := if legacy then 0 else 3 }
+
+/-! ### parsing -/
+
+def optName (s : String) : Option String := if s = "-" then none else some s
+
+def parseAction (s : String) : Option Action :=
+  match s.splitOn "," with
+  | ["transfer", to, asset, amt, fa] => do some (.transfer to asset (← amt.toNat?) fa)
+  | ["rollup", len, fa] => do some (.rollup (← len.toNat?) fa)
+  | ["lock", to, asset, amt, fa, dl] => do some (.lock to asset (← amt.toNat?) fa (← dl.toNat?))
+  | ["unlock", to, b, amt, fa, id, blk] => do some (.unlock to b (← amt.toNat?) fa id (← blk.toNat?))
+  | ["btransfer", to, b, amt, fa, id, blk, dl] =>
+    do some (.bridgeTransfer to b (← amt.toNat?) fa id (← blk.toNat?) (← dl.toNat?))
+  | ["initbridge", r, asset, fa, sudo, wd] => do some (.initBridge (← r.toNat?) asset fa (optName sudo) (optName wd))
+  | ["bsudo", b, ns, nw, fa, dis] => some (.bridgeSudo b (optName ns) (optName nw) fa (dis = "1"))
+  | ["sudo", x] => some (.sudoChange x)
+  | ["ibcsudo", x] => some (.ibcSudoChange x)
+  | ["relayer", "add", x] => some (.relayerAdd x)
+  | ["relayer", "del", x] => some (.relayerDel x)
+  | ["fee", k, b, m] => do some (.feeChange (← parseKind k) (← b.toNat?) (← m.toNat?))
+  | ["feeasset", "add", a] => some (.feeAssetAdd a)
+  | ["feeasset", "del", a] => some (.feeAssetDel a)
+  | ["val", k, p] => do some (.valUpdate k (← p.toNat?))
+  | ["ics20", amt, denom, ch, fa, b, id, blk, ret] =>
+    do some (.ics20 (← amt.toNat?) denom (← ch.toNat?) fa (optName b) id (← blk.toNat?) ret)
+  | _ => none
+
+def parseActions (s : String) : Option (List Action) := (s.splitOn ";").mapM parseAction
+
+def parseMemo : String → Option Memo
+  | "-" => some .empty | "dep" => some .deposit | "depempty" => some .depositEmpty
+  | "fromrollup" => some .fromRollup | "bad" => some .bad | _ => none
+
+def party (s : String) : Option String := if s = "bad" then none else some s
+
+/-! ### monitors: the properties' specs evaluated on implementation dumps -/
+
+/-- A dump as reported by the implementation. -/
+structure IDump where
+  bal : List ((String × String) × Nat) := []
+  nonce : List (String × Nat) := []
+  esc : List ((Nat × String) × Nat) := []
+  bridges : List (String × BridgeAcct) := []
+  wd : List ((String × String) × Nat) := []
+  sudo : String := ""
+  ibcSudo : String := ""
+  relayers : List String := []
+  fees : List (Kind × FeeCfg) := []
+  feeAssets : List String := []
+  vals : List (String × Nat) := []
+  cnt : String := ""
+  vupd : List (String × Nat) := []
+  bfees : List (String × Nat) := []
+  deps : List Deposit := []
+
+def splitList (s : String) : List String := if s = "-" then [] else s.splitOn ","
+
+def field (parts : List String) (name : String) : String :=
+  match parts.find? (·.startsWith (name ++ "=")) with
+  | some p => (p.drop (name.length + 1)).toString
+  | none => "-"
+
+def parseDump (s : String) : Option IDump := do
+  let parts := s.splitOn " "
+  let bal ← (splitList (field parts "bal")).mapM fun e => match e.splitOn ":" with
+    | [x, a, v] => do some ((x, a), ← v.toNat?) | _ => none
+  let nonce ← (splitList (field parts "nonce")).mapM fun e => match e.splitOn ":" with
+    | [x, v] => do some (x, ← v.toNat?) | _ => none
+  let esc ← (splitList (field parts "esc")).mapM fun e => match e.splitOn ":" with
+    | [c, a, v] => do some ((← c.toNat?, a), ← v.toNat?) | _ => none
+  let bridges ← (splitList (field parts "bridges")).mapM fun e => match e.splitOn ":" with
+    | [n, r, a, su, w, d] => do some (n, (⟨← r.toNat?, a, su, w, d = "1"⟩ : BridgeAcct)) | _ => none
+  let wd ← (splitList (field parts "wd")).mapM fun e => match e.splitOn ":" with
+    | [b, id, blk] => do some ((b, id), ← blk.toNat?) | _ => none
+  let fees ← (splitList (field parts "fees")).mapM fun e => match e.splitOn ":" with
+    | [k, b, m] => do some (← parseKind k, (⟨← b.toNat?, ← m.toNat?⟩ : FeeCfg)) | _ => none
+  let kv := fun (name : String) => (splitList (field parts name)).mapM fun e => match e.splitOn ":" with
+    | [k, v] => do some (k, ← v.toNat?) | _ => none
+  let vals ← kv "vals"
+  let vupd ← kv "vupd"
+  let bfees ← kv "bfees"
+  let deps ← (splitList (field parts "deps")).mapM fun e => match e.splitOn ":" with
+    | [r, _, b, a, amt, dl, idx] => do
+      some (⟨b, ← r.toNat?, a, ← amt.toNat?, ← dl.toNat?, ← idx.toNat?⟩ : Deposit)
+    | _ => none
+  some { bal, nonce, esc, bridges, wd, sudo := field parts "sudo", ibcSudo := field parts "ibcsudo",
+         relayers := splitList (field parts "relayers"), fees, feeAssets := splitList (field parts "feeassets"),
+         vals, cnt := field parts "cnt", vupd, bfees, deps }
+
+def assetsOf (d : IDump) : List String :=
+  ((d.bal.map (·.1.2)) ++ (d.esc.map (·.1.2)) ++ (d.bfees.map (·.1))).eraseDups
+
+/-- C01: balances + escrow + fees accumulated in the block, for one asset. -/
+def totalOf (d : IDump) (a : String) : Nat :=
+  ((d.bal.filter (·.1.2 = a)).map (·.2)).sum + ((d.esc.filter (·.1.2 = a)).map (·.2)).sum +
+  ((d.bfees.filter (·.1 = a)).map (·.2)).sum
+
+def balOf (d : IDump) (x a : String) : Nat := ((d.bal.filter (·.1 = (x, a))).map (·.2)).sum
+
+/-- multiset difference `post − pre` (the dump lists deposits sorted, not chronologically) -/
+def newDeposits (pre post : List Deposit) : List Deposit :=
+  pre.foldl (fun acc d => acc.erase d) post
+
+structure Mon where
+  name : String
+  msg : String
+
+/-- Expected mint (+) / burn (−) of an asset by one op, from the op's own arguments and the
+    pre-state (IBC transfers of assets that are not sequencer-origin on that channel). -/
+def signedDelta (pre post : IDump) (a : String) : Int :=
+  (totalOf post a : Int) - (totalOf pre a : Int)
+
+def debited (pre post : IDump) : List (String × String) :=
+  (pre.bal.filter fun ((x, a), v) => balOf post x a < v).map (·.1)
+
+/-- C02: privileged keys that differ between two dumps. -/
+def privChanged (pre post : IDump) : List String :=
+  (if pre.sudo ≠ post.sudo then ["sudo"] else []) ++
+  (if pre.ibcSudo ≠ post.ibcSudo then ["ibcsudo"] else []) ++
+  (if sortStrings pre.relayers ≠ sortStrings post.relayers then ["relayers"] else []) ++
+  (if sortStrings (pre.fees.map fun (k, c) => s!"{kindName k}:{c.base}:{c.mult}") ≠
+      sortStrings (post.fees.map fun (k, c) => s!"{kindName k}:{c.base}:{c.mult}") then ["fees"] else []) ++
+  (if sortStrings pre.feeAssets ≠ sortStrings post.feeAssets then ["feeassets"] else []) ++
+  (if sortStrings (pre.vals.map fun (k, p) => s!"{k}:{p}") ≠ sortStrings (post.vals.map fun (k, p) => s!"{k}:{p}")
+      || pre.cnt ≠ post.cnt
+      || sortStrings (pre.vupd.map fun (k, p) => s!"{k}:{p}") ≠ sortStrings (post.vupd.map fun (k, p) => s!"{k}:{p}")
+   then ["validators"] else [])
+
+def bridgeAdminChanged (pre post : IDump) : List String :=
+  (post.bridges.filterMap fun (n, b) => match pre.bridges.find? (·.1 = n) with
+    | some (_, b0) => if b0.sudo ≠ b.sudo || b0.withdrawer ≠ b.withdrawer || b0.disabled ≠ b.disabled then some n else none
+    | none => none)
+
+structure St where
+  model : Option State := none
+  kept : List (String × Tx) := []
+  ipre : Option IDump := none           -- implementation dump before the current op
+  -- per block (monitors)
+  blockStart : Option IDump := none
+  blockMint : List (String × Int) := []
+  blockFeeEvents : List (String × Nat) := []   -- Σ tx.fees events per asset in this block
+  blockDepEvents : Nat := 0
+  -- history (monitors)
+  wdCarriers : List (String × String) := []    -- (bridge, id) of successful carriers
+  valSet : List (String × Nat) := []           -- CometBFT's view: genesis set folded with updates
+  sent : List ((Nat × String) × Nat) := []     -- escrow in
+  returned : List ((Nat × String) × Nat) := [] -- escrow out
+  legacy : Bool := false
+
+def addInt (m : List (String × Int)) (k : String) (v : Int) : List (String × Int) :=
+  match m.find? (·.1 = k) with
+  | some (_, o) => (k, o + v) :: m.filter (·.1 ≠ k)
+  | none => (k, v) :: m
+
+def getInt (m : List (String × Int)) (k : String) : Int :=
+  match m.find? (·.1 = k) with | some (_, o) => o | none => 0
+
+def parseEvents (s : String) : List Ev :=
+  (splitList s).filterMap fun e => match e.splitOn ":" with
+    | ["fee", a, n, p] => do some (.fee a (← n.toNat?) (← p.toNat?))
+    | ["dep", n] => do some (.dep (← n.toNat?))
+    | _ => none
+
+/-- CometBFT's `ValidatorSet.UpdateWithChangeSet`, as far as the property needs it: power 0
+    removes and is an error if the validator is absent; the result must be non-empty. -/
+def cometApply (set : List (String × Nat)) : List (String × Nat) → Except String (List (String × Nat))
+  | [] => if set.isEmpty then .error "validator set would become empty" else .ok set
+  | (k, p) :: rest =>
+    if p = 0 then
+      if (lookup set k).isNone then .error s!"removal of {k}, which CometBFT does not have"
+      else cometApply (erase set k) rest
+    else cometApply (insert set k p) rest
 
 def run (lines : Array String) : Driver.Report := Id.run do
   let mut r : Driver.Report := {}
+  let mut st : St := {}
   let mut n := 0
   for line in lines do
     n := n + 1
-    r := r.addDisagree n line "bad-area"
+    let (op, implAll) := Driver.splitLine line
+    let (implRes, implDump) := match implAll.splitOn " | " with
+      | [a, b] => (a, b)
+      | _ => (implAll, "")
+    let ws := Driver.words op
+    let mut modelOut := "bad-op"
+    let mut txInfo : Option (String × Nat × List Action) := none
+    let idump := parseDump implDump
+    if idump.isNone then
+      r := r.addMonitor "dump_parse" n line "cannot parse the implementation's state dump"
+    match ws with
+    | ["ledger", "reset", variant] =>
+      let g := genesis (variant = "legacy")
+      st := { model := some g, legacy := variant = "legacy", valSet := g.vals }
+      modelOut := s!"ok - | {dump g}"
+      r := r.bump s!"reset_{variant}"
+    | ["ledger", "begin"] =>
+      match st.model with
+      | some m =>
+        modelOut := s!"ok - | {dump m}"
+        st := { st with blockStart := st.ipre, blockMint := [], blockFeeEvents := [], blockDepEvents := 0 }
+      | none => pure ()
+    | "ledger" :: "tx" :: signer :: nonce :: acts :: [] =>
+      match st.model, nonce.toNat?, parseActions acts with
+      | some m, some nn, some actions =>
+        let tx : Tx := ⟨signer, nn, actions⟩
+        txInfo := some (signer, nn, actions)
+        let m0 := { m with events := [] }
+        if !construct m0 tx then
+          modelOut := s!"err:construct - | {dump m0}"
+          r := r.bump "tx_err_construct"
+        else match execTx m0 tx with
+          | .ok m' =>
+            modelOut := s!"ok {eventsStr m'.events} | {dump m'}"
+            st := { st with model := some m' }
+            r := r.bump "tx_ok"
+            for a in acts.splitOn ";" do r := r.bump ("ok_action_" ++ (a.splitOn ",").headD "")
+          | .error e =>
+            let k := match e with | .nonce => "err:nonce" | .nonceOverflow => "err:nonce-overflow" | _ => "err:exec"
+            modelOut := s!"{k} - | {dump m0}"
+            r := r.bump ("tx_" ++ k)
+      | _, _, _ => pure ()
+    | "ledger" :: "ctor" :: id :: signer :: nonce :: acts :: [] =>
+      match st.model, nonce.toNat?, parseActions acts with
+      | some m, some nn, some actions =>
+        let tx : Tx := ⟨signer, nn, actions⟩
+        if construct m tx then
+          st := { st with kept := (id, tx) :: st.kept.filter (·.1 ≠ id) }
+          modelOut := s!"ok - | {dump m}"
+        else modelOut := s!"err:construct - | {dump m}"
+      | _, _, _ => pure ()
+    | ["ledger", "exec", id] =>
+      match st.model with
+      | some m =>
+        match st.kept.find? (·.1 = id) with
+        | none => modelOut := s!"err:unknown-id - | {dump m}"
+        | some (_, tx) =>
+          st := { st with kept := st.kept.filter (·.1 ≠ id) }
+          txInfo := some (tx.signer, tx.nonce, tx.actions)
+          let m0 := { m with events := [] }
+          match execTx m0 tx with
+          | .ok m' =>
+            modelOut := s!"ok {eventsStr m'.events} | {dump m'}"
+            st := { st with model := some m' }
+            r := r.bump "exec_ok"
+          | .error e =>
+            let k := match e with | .nonce => "err:nonce" | .nonceOverflow => "err:nonce-overflow" | _ => "err:exec"
+            modelOut := s!"{k} - | {dump m0}"
+            r := r.bump ("exec_" ++ k)
+      | none => pure ()
+    | ["ledger", "recv", dst, src, denom, amt, rcpt, memo] =>
+      match st.model, dst.toNat?, src.toNat?, amt.toNat?, parseMemo memo with
+      | some m, some d, some sc, some a, some mm =>
+        let m0 := { m with events := [] }
+        let (ok, m') := recvPacket m0 ⟨d, sc, denom, a, party rcpt, mm⟩
+        modelOut := (if ok then s!"ack:ok {eventsStr m'.events}" else "ack:err -") ++ s!" | {dump m'}"
+        st := { st with model := some m' }
+        r := r.bump (if ok then "recv_ack_ok" else "recv_ack_err")
+      | _, _, _, _, _ => pure ()
+    | "ledger" :: kind :: rest =>
+      -- timeout <src> <denom> <amt> <sender> <memo> | ack <ok|err> <src> …
+      let (isRefund, args) := match kind, rest with
+        | "timeout", args => (true, args)
+        | "ack", "err" :: args => (true, args)
+        | "ack", "ok" :: args => (false, args)
+        | _, _ => (false, [])
+      match st.model, args with
+      | some m, [src, denom, amt, sender, memo] =>
+        match src.toNat?, amt.toNat?, parseMemo memo with
+        | some sc, some a, some mm =>
+          let m0 := { m with events := [] }
+          if kind = "end" then pure ()
+          else if !isRefund then
+            modelOut := s!"ok - | {dump m0}"
+            r := r.bump "ack_success_noop"
+          else match refundPacket m0 ⟨sc, denom, a, party sender, mm⟩ with
+            | .ok m' =>
+              modelOut := s!"ok {eventsStr m'.events} | {dump m'}"
+              st := { st with model := some m' }
+              r := r.bump "refund_ok"
+            | .error _ =>
+              modelOut := s!"err:exec - | {dump m0}"
+              r := r.bump "refund_err"
+        | _, _, _ => pure ()
+      | some m, [] =>
+        if kind = "end" then
+          let blockdeps := depsDump m.deposits
+          let (ok, ups, m') := endBlock m
+          let vu := joinOrDash (sortStrings (ups.map fun (k, p) => s!"{k}:{p}"))
+          modelOut := (if ok then s!"ok vu={vu} blockdeps={blockdeps}" else "err") ++ s!" | {dump m'}"
+          st := { st with model := some m' }
+          r := r.bump "end"
+        else pure ()
+      | _, _ => pure ()
+    | _ => pure ()
+    r := r.check n line implAll modelOut
+    -- ===================== monitors on the implementation's own reports =====================
+    match st.ipre, idump with
+    | some pre, some post =>
+      let okRes := implRes.startsWith "ok" || implRes.startsWith "ack:ok"
+      let isTxLike := match ws with
+        | "ledger" :: k :: _ => k = "tx" || k = "exec"
+        | _ => false
+      let isPkt := match ws with
+        | "ledger" :: k :: _ => k = "recv" || k = "timeout" || k = "ack"
+        | _ => false
+      let evs := parseEvents ((implRes.splitOn " ").getD 1 "-")
+      -- C03 atomic: a failed transaction / refund handler / error-acknowledged packet changes nothing
+      if (isTxLike || isPkt || (ws.getD 1 "") = "ctor") && !okRes then
+        if implDump ≠ (match lines[n - 2]? with | some prev => ((Driver.splitLine prev).2.splitOn " | ").getD 1 "" | none => "") then
+          let nm := if isPkt then "recv_all_or_nothing" else "failed_tx_no_effect"
+          r := r.addMonitor nm n line "a failed operation changed the state dump"
+        if !evs.isEmpty then
+          r := r.addMonitor (if isPkt then "recv_all_or_nothing" else "failed_tx_no_effect") n line "a failed operation recorded fee/deposit events"
+      -- C01 conservation per op: total per asset changes only by IBC mint/burn
+      if isTxLike || isPkt then
+        for a in (assetsOf pre ++ assetsOf post).eraseDups do
+          let d := signedDelta pre post a
+          -- allowed mint/burn: for tx — ics20 withdrawals of assets with the channel prefix (burn);
+          -- for packets — receive of a foreign asset (mint) / refund of a prefixed asset (re-mint)
+          let allowed : Int := match ws with
+            | "ledger" :: "tx" :: _ | "ledger" :: "exec" :: _ =>
+              if okRes then
+                (match txInfo with | some (_, _, acts) => acts | none => []).foldl (fun acc act => match act with
+                  | Action.ics20 amt denom ch _ _ _ _ _ => if denom = a && hasLeading denom ch then acc - amt else acc
+                  | _ => acc) 0
+              else 0
+            | ["ledger", "recv", dst, src, denom, amt, _, _] =>
+              if okRes then
+                let sc := src.toNat?.getD 0
+                if hasLeading denom sc then 0
+                else if chanPrefix (dst.toNat?.getD 0) ++ denom = a then (amt.toNat?.getD 0 : Int) else 0
+              else 0
+            | "ledger" :: k :: rest =>
+              let args := if k = "ack" then rest.drop 1 else rest
+              if okRes && (k = "timeout" || (k = "ack" && rest.headD "" = "err")) then
+                match args with
+                | [src, denom, amt, _, _] =>
+                  if denom = a && hasLeading denom (src.toNat?.getD 0) then (amt.toNat?.getD 0 : Int) else 0
+                | _ => 0
+              else 0
+            | _ => 0
+          if d ≠ allowed then
+            r := r.addMonitor "conservation" n line s!"asset {a}: balances+escrow+block fees changed by {d}, expected {allowed}"
+          st := { st with blockMint := addInt st.blockMint a allowed }
+      -- C01 fees: each tx.fees event = base + mult*size of the schedule in force, debited from the signer only
+      if isTxLike && okRes then
+        for e in evs do
+          match e with
+          | .fee a amt _ => st := { st with blockFeeEvents :=
+              (a, amt + (st.blockFeeEvents.find? (·.1 = a) |>.map (·.2) |>.getD 0)) :: st.blockFeeEvents.filter (·.1 ≠ a) }
+          | .dep _ => st := { st with blockDepEvents := st.blockDepEvents + 1 }
+      if isPkt && okRes then
+        for e in evs do
+          match e with
+          | .dep _ => st := { st with blockDepEvents := st.blockDepEvents + 1 }
+          | _ => pure ()
+      match ws, txInfo with
+      | "ledger" :: _, some (signer, txNonce, actions) =>
+        if okRes && isTxLike then
+          -- fee events: one per fee-paying action, in order, with the exact amount
+          let feeEvs := evs.filterMap fun | .fee a amt pos => some (a, amt, pos) | _ => none
+          let mut expected : List (String × Nat × Nat) := []
+          let mut fees := pre.fees
+          let mut pos := 0
+          for act in actions do
+            match feeInfo act with
+            | some (k, size, fa) =>
+              match lookup fees k with
+              | some cfg => expected := expected ++ [(fa, cfg.base + size * cfg.mult, pos)]
+              | none => pure ()
+            | none => pure ()
+            match act with
+            | .feeChange k b m => fees := insert fees k ⟨b, m⟩
+            | _ => pure ()
+            pos := pos + 1
+          if feeEvs ≠ expected then
+            r := r.addMonitor "fee_exact" n line s!"fee events {repr feeEvs} differ from base+mult*size = {repr expected}"
+          -- C02: who lost funds
+          for (x, a) in debited pre post do
+            let authorised := x = signer ||
+              (match lookup pre.bridges x with
+               | some b => b.withdrawer = signer ||
+                   -- withdrawer changed earlier in this same transaction by the bridge's sudo
+                   actions.any (fun act => match act with | .bridgeSudo bb _ (some w) _ _ => bb = x && w = signer | _ => false)
+               | none => false)
+            if !authorised then
+              r := r.addMonitor "debit_authorised" n line s!"balance of {x} in {a} decreased by a transaction signed by {signer}"
+          -- C02: privileged state
+          let changed := privChanged pre post
+          for c in changed do
+            let holder := if c = "relayers" then pre.ibcSudo else pre.sudo
+            let sudoMovedHere := actions.any fun act => match act with | .sudoChange _ => true | .ibcSudoChange _ => true | _ => false
+            if signer ≠ holder && !sudoMovedHere then
+              r := r.addMonitor "priv_authorised" n line s!"{c} changed by {signer}, authority is {holder}"
+          for b in bridgeAdminChanged pre post do
+            match lookup pre.bridges b with
+            | some acct => if acct.sudo ≠ signer then
+                r := r.addMonitor "priv_authorised" n line s!"bridge {b} administration changed by {signer}, its sudo is {acct.sudo}"
+            | none => pure ()
+          for (nm, _) in post.bridges do
+            if (lookup pre.bridges nm).isNone && nm ≠ signer then
+              r := r.addMonitor "priv_authorised" n line s!"bridge account {nm} initialised by {signer}"
+          -- C03 nonce gate
+          let nb := (pre.nonce.find? (·.1 = signer)).map (·.2) |>.getD 0
+          let na := (post.nonce.find? (·.1 = signer)).map (·.2) |>.getD 0
+          if na ≠ nb + 1 then
+            r := r.addMonitor "nonce_gate" n line s!"successful transaction: signer nonce {nb} -> {na}"
+          if txNonce ≠ nb then
+            r := r.addMonitor "nonce_gate" n line s!"transaction with nonce {txNonce} executed at account nonce {nb}"
+          for (x, v) in post.nonce do
+            if x ≠ signer && ((pre.nonce.find? (·.1 = x)).map (·.2) |>.getD 0) ≠ v then
+              r := r.addMonitor "nonce_gate" n line s!"nonce of {x} changed by a transaction of {signer}"
+          -- C04 deposits backed; withdrawal ids once
+          let newDeps := newDeposits pre.deps post.deps
+          for d in newDeps do
+            match lookup post.bridges d.bridge with
+            | some b =>
+              if b.asset ≠ d.asset || b.rollup ≠ d.rollup then
+                r := r.addMonitor "deposit_backed" n line s!"deposit for {d.bridge} in {d.asset}/rollup {d.rollup}, bridge is {b.asset}/rollup {b.rollup}"
+            | none => r := r.addMonitor "deposit_backed" n line s!"deposit names {d.bridge}, which is not a bridge account"
+          for b in (newDeps.map (·.bridge)).eraseDups do
+            let dsum := ((newDeps.filter (·.bridge = b)).map (·.amount)).sum
+            let asset := (lookup post.bridges b).map (·.asset) |>.getD ""
+            -- credits to the bridge in this tx ≥ deposits (the bridge may also pay out in the same tx)
+            let outs := (actions.filterMap fun act => match act with
+              | .unlock _ bb amt _ _ _ => if bb = b then some amt else none
+              | .bridgeTransfer _ bb amt _ _ _ _ => if bb = b then some amt else none
+              | .ics20 amt dn _ _ (some bb) _ _ _ => if bb = b && dn = asset then some amt else none
+              | _ => none).sum
+            if balOf post b asset + outs < balOf pre b asset + dsum then
+              r := r.addMonitor "deposit_backed" n line s!"deposits of {dsum} for {b} but its balance rose by less"
+          for act in actions do
+            let carrier : Option (String × String) := match act with
+              | .unlock _ b _ _ id _ => some (b, id)
+              | .bridgeTransfer _ b _ _ id _ _ => some (b, id)
+              | .ics20 _ _ _ _ (some b) id _ _ => some (b, id)
+              | _ => none
+            match carrier with
+            | some c =>
+              if st.wdCarriers.contains c then
+                r := r.addMonitor "withdrawal_once" n line s!"withdrawal event {c.2} of bridge {c.1} honoured a second time"
+              st := { st with wdCarriers := c :: st.wdCarriers }
+            | none => pure ()
+          -- C18 escrow bookkeeping
+          for act in actions do
+            match act with
+            | .ics20 amt denom ch _ _ _ _ _ =>
+              if !hasLeading denom ch then st := { st with sent := setN st.sent (ch, denom) (getN st.sent (ch, denom) + amt) }
+            | _ => pure ()
+      | ["ledger", "recv", dst, src, denom, amt, rcpt, _], _ =>
+        if okRes then
+          let sc := src.toNat?.getD 0
+          if hasLeading denom sc then
+            let a := (denom.drop (chanPrefix sc).length).toString
+            let c := dst.toNat?.getD 0
+            st := { st with returned := setN st.returned (c, a) (getN st.returned (c, a) + amt.toNat?.getD 0) }
+          -- deposit only for a bridge recipient, backed by an equal credit
+          let newDeps := newDeposits pre.deps post.deps
+          for d in newDeps do
+            if d.bridge ≠ rcpt || (lookup post.bridges rcpt).isNone || d.amount ≠ amt.toNat?.getD 0
+               || balOf post rcpt d.asset ≠ balOf pre rcpt d.asset + d.amount then
+              r := r.addMonitor "deposit_backed" n line "deposit of a received packet not matched by an equal credit of the bridge account"
+          if (lookup post.bridges rcpt).isSome && newDeps.length ≠ 1 then
+            r := r.addMonitor "deposit_backed" n line "successful receive to a bridge account without exactly one deposit"
+      | "ledger" :: k :: rest, _ =>
+        let args := if k = "ack" then rest.drop 1 else rest
+        if okRes && (k = "timeout" || (k = "ack" && rest.headD "" = "err")) then
+          match args with
+          | [src, denom, amt, _, _] =>
+            let sc := src.toNat?.getD 0
+            if !hasLeading denom sc then
+              st := { st with returned := setN st.returned (sc, denom) (getN st.returned (sc, denom) + amt.toNat?.getD 0) }
+          | _ => pure ()
+      | _, _ => pure ()
+      -- C18 escrow identity after every op
+      for ((c, a), v) in post.esc do
+        if v + getN st.returned (c, a) ≠ getN st.sent (c, a) then
+          r := r.addMonitor "escrow_identity" n line s!"escrow of {a} on channel {c} is {v}; sent {getN st.sent (c, a)}, returned {getN st.returned (c, a)}"
+      for ((c, a), v) in st.sent do
+        if ((post.esc.find? (·.1 = (c, a))).map (·.2) |>.getD 0) + getN st.returned (c, a) ≠ v then
+          r := r.addMonitor "escrow_identity" n line s!"escrow of {a} on channel {c} does not equal sent {v} minus returned {getN st.returned (c, a)}"
+      -- block end: fees routed, conservation over the block, validator mirror
+      match ws with
+      | ["ledger", "end"] =>
+        if implRes.startsWith "ok" then
+          match st.blockStart with
+          | some _ =>
+            -- every fee charged in the block goes to the sudo address at block end
+            for (a, v) in pre.bfees do
+              if balOf post post.sudo a ≠ balOf pre post.sudo a + v then
+                r := r.addMonitor "fees_routed" n line s!"block fees {v} of {a} not credited to the fee recipient {post.sudo}"
+              if ((st.blockFeeEvents.find? (·.1 = a)).map (·.2) |>.getD 0) ≠ v then
+                r := r.addMonitor "fees_routed" n line s!"block fees {v} of {a} differ from the sum of tx.fees events"
+            if !post.bfees.isEmpty then
+              r := r.addMonitor "fees_routed" n line "block fees not cleared at block end"
+            for a in (assetsOf pre ++ assetsOf post).eraseDups do
+              if totalOf pre a ≠ totalOf post a then
+                r := r.addMonitor "conservation" n line s!"asset {a}: total changed at block end"
+          | none => pure ()
+          -- deposits published with the block = deposits cached by successful ops
+          let blockdeps := ((implRes.splitOn "blockdeps=").getD 1 "-")
+          if (splitList blockdeps).length ≠ st.blockDepEvents then
+            r := r.addMonitor "deposit_backed" n line s!"{(splitList blockdeps).length} deposits published, {st.blockDepEvents} deposit events of successful operations"
+          -- C14: fold the returned updates into CometBFT's view
+          let vuStr := (((implRes.splitOn "vu=").getD 1 "-").splitOn " ").headD "-"
+          let ups := (splitList vuStr).filterMap fun e => match e.splitOn ":" with
+            | [k, p] => do some (k, ← p.toNat?) | _ => none
+          match cometApply st.valSet ups with
+          | .ok set' =>
+            st := { st with valSet := set' }
+            if sortStrings (set'.map fun (k, p) => s!"{k}:{p}") ≠ sortStrings (post.vals.map fun (k, p) => s!"{k}:{p}") then
+              r := r.addMonitor "validator_mirror" n line s!"CometBFT's set {repr set'} differs from the application's {repr post.vals}"
+            if post.cnt ≠ "pre" && post.cnt.toNat? ≠ some post.vals.length then
+              r := r.addMonitor "validator_mirror" n line s!"validator count {post.cnt} but {post.vals.length} validators stored"
+          | .error e =>
+            r := r.addMonitor "validator_updates_applicable" n line s!"CometBFT cannot apply the returned updates: {e}"
+            -- resynchronise so that one finding is reported once
+            st := { st with valSet := post.vals }
+      | _ => pure ()
+    | _, _ => pure ()
+    st := { st with ipre := idump }
   return r
 
 end Driver.LedgerArea
